@@ -61,13 +61,30 @@ def rule_rep(S, la):
                     'creates a sibling and names that sibling; put clears created_nvp at entry and forwards the '
                     'pointer unchanged')
     n = 0
-    for q in (Y + 'border_split', Y + 'insert_lv'):
+    # a border_split that is not given the report leaves the reporting to its caller: the caller then has to name the
+    # node border_split created - the value border_split returns (a node it allocated, on every return), never a
+    # pointer re-read from the shared links after the split has released its locks
+    bs = facts.one(Y + 'border_split')
+    split_reports = info_param(bs) is not None
+    split_returns_fresh = False
+    if not split_reports:
+        bfi = la.fi(bs)
+        rets = [x for x in bs.all_nodes() if x['k'] == 'ReturnStmt']
+        split_returns_fresh = bool(rets) and all(
+            bs.ch(x) and (lambda r: r is not None and r['k'] == 'DeclRefExpr' and r.get('id') in bfi.fresh_vars)(
+                bs.strip(bs.ch(x)[0], casts=True)) for x in rets)
+        S.ob('R-REP', bs.qname, 'reporting', True,
+             'border_split takes no inserted_node_info*: the report is made by its caller (checked there); it %s the '
+             'node it created' % ('returns' if split_returns_fresh else 'does not return'), loc=bs.loc)
+    for q in ((Y + 'border_split', Y + 'insert_lv') if split_reports else (Y + 'insert_lv',)):
         f = facts.one(q)
         fi = la.fi(f)
         info = info_param(f)
         if info is None:
             raise AnalysisBroken('R-REP: %s has no inserted_node_info* parameter' % q)
         exits = {}
+        split_vars = {v['id'] for m in f.all_nodes() if m['k'] == 'DeclStmt' for v in m.get('vars', [])
+                      if 'init' in v and is_call(f.strip(f.node(v['init']), casts=True), cq=Y + 'border_split')}
 
         def step(ctx, nd, st):
             dirt, mod, cre, forwarded = st
@@ -77,6 +94,11 @@ def rule_rep(S, la):
                     mod = a[1]
                 else:
                     cre = a[1]
+                    for x in f.walk(f.ch(nd)[1]):
+                        if is_call(x, cq=Y + 'base_node::get_version_ptr'):
+                            r = f.strip(call_recv(f, x), casts=True)
+                            if r is not None and r['k'] == 'DeclRefExpr' and r.get('id') in split_vars:
+                                cre = ('var', r['id'])
                 return (dirt, mod, cre, forwarded)
             if nd['k'] in CALL_KINDS:
                 cq = nd.get('cq')
@@ -86,6 +108,10 @@ def rule_rep(S, la):
                 if cq == Y + 'border_split':
                     args = call_args(f, nd)
                     fw = any(root_var(f, x) == info for x in args)
+                    if not split_reports:
+                        # the split changes the version of the border it is given and of the sibling it creates
+                        bt = [la.tok(fi, x) for x in args if is_border_recv(f, x)]
+                        return (dirt | set(bt) | {('split-fresh',)}, mod, cre, 'split-local')
                     return (dirt, mod, cre, 'split' if fw else 'split-lost')
             if nd['k'] == 'ReturnStmt':
                 return finish(ctx, st, nd)
@@ -99,6 +125,24 @@ def rule_rep(S, la):
             if forwarded == 'split':
                 return None  # border_split reports (checked there)
             rep = {t for t in (mod, cre) if t is not None}
+            if forwarded == 'split-local':
+                named_fresh = cre is not None and cre[0] == 'var' and split_returns_fresh and \
+                    any(vname(v) == cre[1] or v == cre[1] for v in split_vars)
+                others = {t for t in dirt if t != ('split-fresh',)}
+                if cre is None:
+                    e['ok'] = False
+                    e['why'] = 'the path splits but created_nvp is not set'
+                elif not named_fresh:
+                    e['ok'] = False
+                    e['why'] = ('created_nvp names %s, which is not the node border_split created and returned (a link '
+                                're-read after the split released its locks can already name another node)' % tok_str(cre))
+                elif others != ({mod} if mod is not None else set()):
+                    e['ok'] = False
+                    e['why'] = 'version words changed: {%s}; reported: modified=%s' % (
+                        ', '.join(sorted(tok_str(t) for t in others)), tok_str(mod) if mod else 'unset')
+                if not e['ok'] and ctx is not None:
+                    e['path'] = e['path'] or ctx.witness()
+                return None
             if forwarded == 'split-lost':
                 e['ok'] = False
                 e['why'] = 'inserted_node_info_ptr is not forwarded to border_split'
